@@ -178,8 +178,8 @@ type complaint struct{ sig, msg string }
 
 type trimFacts struct {
 	closedPeers, sparedProtected, sparedGrace, sparedHigher, ties int
-	closedProtected                                            bool
-	underTrim                                                  bool // ForceTrim left > low conns although closable ones remained
+	closedProtected                                               bool
+	underTrim                                                     bool // ForceTrim left > low conns although closable ones remained
 }
 
 func peersOf(closed map[int]bool, m *model) map[int]int {
